@@ -1,10 +1,39 @@
 package c13
 
+// C13 — a validator that crashes and recovers does not contradict what it already sent.
+//
+// System under test: the real consensus/driver.Driver (replay of the WAL on start; execute(): WAL append / flush
+// before visible effects, broadcasts, timeout scheduling, commit callback, WAL prune) + the real tendermint state
+// machine + a WAL (reference WAL with explicit pending-vs-flushed semantics; thorough tier additionally the real
+// consensus/walstore on the logging filesystem crashfs), inside testing/synctest bubbles (virtual time: an armed
+// timeout fires only when the script says so).
+//
+// Enumerated, exhaustively within the stated bounds, per configuration (role x Application variant x WAL):
+//   - every sequence of at most L inputs over the alphabet (peer proposals / prevotes / precommits for heights h, h+1,
+//     rounds 0, 1; the validator's own armed timeouts), the process being killed at EVERY effect it performs
+//     (just before / just after: WAL append, WAL flush (+ "batch landed" / "batch lost"), each broadcast, timeout
+//     scheduling, commit callback, WAL prune), a NEW driver + state machine + Application incarnation being started
+//     on the frozen durable state, and the remaining inputs (every enabled continuation, total length <= L; optionally
+//     the input that was in flight delivered again first) being fed to it.
+//
+// Oracles: (1) no prevote / precommit after recovery differs from one broadcast before the kill for the same
+// (height, round); (2) the new instance resumes at last-completed-commit + 1; (3) the driver replays exactly the
+// durable inputs and the machine afterwards equals a reference machine fed those inputs — with the new and with the
+// killed Application incarnation; (4) every pre-kill broadcast of a not yet completely committed height is derivable
+// from the durable log (logged before visible).
+
 import (
+	"encoding/json"
 	"fmt"
 	"os"
+	"sort"
+	"strings"
 	"testing"
 	"time"
+
+	"github.com/NethermindEth/juno/consensus/types"
+
+	"verif/mc/ev"
 )
 
 func TestSpike(t *testing.T) {
@@ -19,8 +48,9 @@ func TestSpike(t *testing.T) {
 		cfg.Alpha = a
 	}
 	cfg.Real = os.Getenv("C13_REAL") != ""
+	cfg.Redel = os.Getenv("C13_REDEL") != ""
 	t0 := time.Now()
-	x := exploreSubtree(t, cfg, nil, nil)
+	x := exploreSubtree(t, cfg, nil, 0, nil)
 	fmt.Println(cfg, "time", time.Since(t0), "infra", x.infra)
 	fmt.Println(x.stats)
 	fmt.Println(x.points)
@@ -28,11 +58,235 @@ func TestSpike(t *testing.T) {
 	for _, k := range x.order {
 		v := x.viols[k]
 		fmt.Println("VIOL", v.Count, k)
-		for kk, vv := range v.Detail {
-			fmt.Printf("    %s: %v\n", kk, vv)
+		if os.Getenv("C13_SPIKE") == "2" {
+			for kk, vv := range v.Detail {
+				fmt.Printf("    %s: %v\n", kk, vv)
+			}
 		}
 	}
-	for _, s := range x.samples {
-		fmt.Println("SAMPLE", s)
+}
+
+type plan struct {
+	cfg   config
+	depth int // job prefix depth
+}
+
+func plans(r *ev.Run) []plan {
+	var ps []plan
+	add := func(roles []int, real bool, alpha string, l, depth int, redel bool) {
+		for _, role := range roles {
+			for _, a := range []int{appDet, appFresh} {
+				ps = append(ps, plan{config{Role: role, App: a, Real: real, Alpha: alpha, L: l, Redel: redel}, depth})
+			}
+		}
 	}
+	if r.Quick() {
+		add([]int{roleP}, false, "core", 5, 2, true)
+		ps = append(ps, plan{config{Role: roleN, App: appDet, Alpha: "core", L: 5, Redel: true}, 2})
+		// a pure non-proposer never calls Value(): the Application variant cannot matter; checked at a smaller bound
+		ps = append(ps, plan{config{Role: roleN, App: appFresh, Alpha: "core", L: 4, Redel: true}, 2})
+		return ps
+	}
+	add([]int{roleP, roleN, roleM}, false, "core", 6, 3, true)
+	add([]int{roleP, roleN}, true, "core", 5, 2, true)
+	add([]int{roleP, roleN}, false, "mini", 7, 3, false)
+	add([]int{roleP, roleN, roleM}, false, "wide", 4, 2, true)
+	return ps
+}
+
+func allTimerSyms() []sym {
+	var out []sym
+	for r := 0; r < maxR; r++ {
+		for st := 0; st < 3; st++ {
+			out = append(out, sym{K: 't', R: r, Step: types.Step(st)})
+		}
+	}
+	return out
+}
+
+func jobsFor(p plan, deadline int64) []wireJob {
+	jobs := []wireJob{{Cfg: p.cfg, TopDepth: p.depth, Deadline: deadline}}
+	syms := append(alphabet(p.cfg.Alpha), allTimerSyms()...)
+	var rec func(prefix []sym)
+	rec = func(prefix []sym) {
+		if len(prefix) == p.depth {
+			jobs = append(jobs, wireJob{Cfg: p.cfg, Prefix: append([]sym(nil), prefix...), Deadline: deadline})
+			return
+		}
+		for _, s := range syms {
+			rec(append(prefix, s))
+		}
+	}
+	if p.cfg.L >= p.depth {
+		rec(nil)
+	}
+	return jobs
+}
+
+func TestCheck(t *testing.T) {
+	if os.Getenv("VERIF_C13_WORKER") != "" {
+		workerMain(t)
+		return
+	}
+	r := ev.Start("C13", "fault_enumeration")
+	r.SetBudget(ev.Pick(r, 140, 1620))
+	if f := os.Getenv("VERIF_REPLAY"); f != "" {
+		replayFile(t, r, f)
+		return
+	}
+	pl, err := newPool()
+	if err != nil {
+		r.Infra("cannot start worker processes: %v", err)
+	}
+	defer pl.close()
+
+	type agg struct {
+		stats map[string]int64
+		cut   bool
+	}
+	perCfg := map[string]*agg{}
+	points := map[string]int64{}
+	outcomes := map[string]int64{}
+	var cfgOrder []string
+	budgetEnd := time.Now().Add(time.Duration(ev.Pick(r, 140, 1620)) * time.Second)
+	if b := os.Getenv("VERIF_BUDGET_S"); b != "" {
+		var s int
+		fmt.Sscan(b, &s)
+		budgetEnd = time.Now().Add(time.Duration(s) * time.Second)
+	}
+	var jobs []wireJob
+	for _, p := range plans(r) {
+		k := p.cfg.String()
+		perCfg[k] = &agg{stats: map[string]int64{}}
+		cfgOrder = append(cfgOrder, k)
+		jobs = append(jobs, jobsFor(p, budgetEnd.UnixNano())...)
+	}
+	var infra string
+	err = pl.run(jobs, func(j *wireJob, res *wireRes) {
+		a := perCfg[j.Cfg.String()]
+		if res.Infra != "" && infra == "" {
+			infra = fmt.Sprintf("%s %s: %s", j.Cfg.String(), scriptString(j.Prefix), res.Infra)
+		}
+		if res.Cut {
+			a.cut = true
+		}
+		for k, v := range res.Stats {
+			a.stats[k] += v
+			r.Add(k, v)
+		}
+		for k, v := range res.Points {
+			points[k] += v
+		}
+		for k, v := range res.Outcomes {
+			outcomes[k] += v
+		}
+		for _, v := range res.Viols {
+			var d map[string]any
+			json.Unmarshal(v.Detail, &d)
+			for i := 0; i < v.Count; i++ {
+				r.Violate(v.Key, d)
+				if i >= 3 {
+					break
+				}
+			}
+			r.Add("violating_cases", int64(v.Count))
+		}
+		for _, s := range res.Samples {
+			var d any
+			json.Unmarshal(s, &d)
+			r.Sample(d)
+		}
+	})
+	if err != nil {
+		r.Infra("%v", err)
+	}
+	if infra != "" {
+		r.Infra("%s", infra)
+	}
+	per := map[string]any{}
+	for _, k := range cfgOrder {
+		a := perCfg[k]
+		per[k] = a.stats
+		if a.cut {
+			r.Incomplete("internal deadline: not all subtrees explored for " + k)
+		}
+		if a.stats["scripts"] == 0 || a.stats["crash_points"] == 0 {
+			r.Infra("vacuous exploration for %s", k)
+		}
+	}
+	r.Set("per_configuration", per)
+	r.Set("crash_points_by_kind", points)
+	r.Set("recoveries_by_outcome", outcomes)
+	for k := range outcomes {
+		r.Outcome(k)
+	}
+	var kinds []string
+	for k := range points {
+		kinds = append(kinds, k)
+	}
+	sort.Strings(kinds)
+	r.Set("evaluations", r.Get("crash_executions"))
+	r.Set("distinct_nontrivial", r.Get("distinct_recovered_states"))
+	r.Set("rule", "per configuration (role x Application variant x WAL): every input sequence of total length <= L over the alphabet, "+
+		"the process killed just before and just after every effect the driver performs (WAL append, WAL flush incl. batch lost/landed, "+
+		"each broadcast, timeout scheduling, commit callback, WAL prune; each kill is a real re-execution stopped by a sentinel panic), a new "+
+		"driver/machine/Application incarnation booted on the frozen durable state and fed every enabled continuation (and, separately, the "+
+		"in-flight input again first); evaluations = (crash point, continuation) pairs judged; distinct_nontrivial = distinct recovered durable "+
+		"states booted; kinds of crash point seen: "+strings.Join(kinds, ", "))
+	r.Assume = append(r.Assume,
+		"validator set: 4 validators of power 1 (f=1, quorum 3); peers A then B send votes (each at most one vote per kind/height/round), C is silent, so no future-height precommit quorum (TriggerSync / block fetcher are outside this property)",
+		"one crash per execution; the process image dies completely (kill -9): nothing buffered survives, only what the WAL store made durable and the blocks whose commit callback returned",
+		"a restarted node builds its state machine at blockchain height + 1 exactly as consensus.Init does; Application.Valid is deterministic",
+		"reference WAL = the documented TendermintWALStore contract (pending until Flush, batch atomic); real walstore tier: crash images at whole filesystem-op granularity, namespace ops durable (byte cuts / torn tails / metadata lag are C14's)",
+		"timeouts: virtual time (testing/synctest); an armed timer fires only where the script has the matching timeout symbol; stale timers that cause no effect are not enumerated as inputs",
+	)
+	r.Finish()
+}
+
+func replayFile(t *testing.T, r *ev.Run, f string) {
+	b, err := os.ReadFile(f)
+	if err != nil {
+		r.Infra("cannot read replay file: %v", err)
+	}
+	var doc struct {
+		Key    string `json:"key"`
+		Detail struct {
+			Replay struct {
+				Cfg  config   `json:"cfg"`
+				Pre  []string `json:"pre"`
+				Post []string `json:"post"`
+			} `json:"replay"`
+		} `json:"detail"`
+	}
+	if err := json.Unmarshal(b, &doc); err != nil {
+		r.Infra("bad replay file: %v", err)
+	}
+	cfg := doc.Detail.Replay.Cfg
+	var pre []sym
+	for _, n := range doc.Detail.Replay.Pre {
+		s, err := parseSym(n)
+		if err != nil {
+			r.Infra("%v", err)
+		}
+		pre = append(pre, s)
+	}
+	cfg.L = len(pre) + len(doc.Detail.Replay.Post)
+	x := exploreSubtree(t, &cfg, pre, len(pre)+1, nil)
+	if x.infra != "" {
+		r.Infra("%s", x.infra)
+	}
+	fmt.Printf("replay of %q: %s inputs_before_crash=%s, recovery continuations up to %d inputs\n", doc.Key, cfg.String(), scriptString(pre), len(doc.Detail.Replay.Post))
+	for _, k := range x.order {
+		v := x.viols[k]
+		fmt.Printf("  reproduced: %s (%d cases)\n", k, v.Count)
+		r.Violate(k, v.Detail)
+	}
+	for k, v := range x.stats {
+		r.Add(k, v)
+	}
+	r.Set("evaluations", r.Get("crash_executions"))
+	r.Set("distinct_nontrivial", r.Get("distinct_recovered_states"))
+	r.Set("rule", "replay of one recorded case")
+	r.Sample(map[string]any{"replayed": doc.Key})
+	r.Finish()
 }
